@@ -626,6 +626,20 @@ func ruleM2Literals(c *Ctx, p *Program) {
 					prec = tv.Value
 				case "Traps":
 					traps = tv.Value
+				case "Rounding":
+					// "correct to 34 significant digits" is rounding to nearest: the field is left unset
+					// (apd's default, half up) or names a to-nearest mode; a directed mode (down, up,
+					// floor, ceiling, 05up) is off by up to a whole unit of the last digit
+					rv := ""
+					if tv.Value != nil && tv.Value.Kind() == constant.String {
+						rv = constant.StringVal(tv.Value)
+					}
+					nearest := map[string]bool{"": true, "half_up": true, "half_even": true, "half_down": true}
+					if tv.Value == nil {
+						c.Undecide("C19.M2", name+"#Rounding", p.Pos(vs.Pos()), "Rounding of "+name+" is not a compile-time constant")
+					} else {
+						c.Check(nearest[rv], "C19.M2", name+"#Rounding", p.Pos(vs.Pos()), fmt.Sprintf("%s.Rounding = %q: a round-to-nearest mode (results of the rounding operations are within half a unit of the last of the 34 digits)", name, rv))
+					}
 				}
 			}
 			pos := p.Pos(vs.Pos())
